@@ -329,13 +329,47 @@ def run_harness(h, workdir, timeout=600, mem_gb=20, unwindset=(), unwind=None, e
     return rec
 
 
+def _mem_available_gb():
+    try:
+        for l in open("/proc/meminfo"):
+            if l.startswith("MemAvailable:"):
+                return int(l.split()[1]) / 1048576.0
+    except Exception:
+        pass
+    return 32.0
+
+
 def run_many(jobs, workers):
-    """jobs: list of (fn, args, kwargs). Longest first is the caller's business."""
+    """jobs: list of (fn, args, kwargs). Longest first is the caller's business.
+    Admission control on memory: a job whose address-space cap (`mem_gb`) is above the default
+    is expected to use most of it; it only starts when the expected use of the running jobs
+    leaves room (or nothing is running), so several 30-40 GB obligations of a thorough tier do
+    not push each other into the kernel's OOM killer (which would read as 'inconclusive')."""
+    import threading
     results = [None] * len(jobs)
+    budget = max(8.0, _mem_available_gb() * 0.9)
+    cv = threading.Condition()
+    state = {"used": 0.0, "running": 0}
+
+    def weight(k):
+        cap = float(k.get("mem_gb", 14) or 14)
+        return 3.0 if cap <= 14 else cap * 0.8
+
+    def guarded(fn, a, k):
+        w = weight(k)
+        with cv:
+            while state["running"] > 0 and state["used"] + w > budget:
+                cv.wait(timeout=5)
+            state["used"] += w; state["running"] += 1
+        try:
+            return fn(*a, **k)
+        finally:
+            with cv:
+                state["used"] -= w; state["running"] -= 1
+                cv.notify_all()
+
     with ThreadPoolExecutor(max_workers=workers) as ex:
-        futs = {ex.submit(fn, *a, **k): i for i, (fn, a, k) in enumerate(jobs)}
-        for f in futs:
-            pass
+        futs = {ex.submit(guarded, fn, a, k): i for i, (fn, a, k) in enumerate(jobs)}
         for f, i in futs.items():
             try:
                 results[i] = f.result()
